@@ -84,16 +84,30 @@ fn parse_tree(v: &Value, cls: bool) -> Tree {
     }
 }
 
+/// builder path or struct literal: decided by the case itself
+fn via_builder(c: &Case) -> bool {
+    (c.x.len() + c.mss + c.msl + c.x.first().map(|r| r.len()).unwrap_or(0)) % 2 == 0
+}
+
 /// Fit on (x, y), predict the training rows and `extra`. Err = panic, Ok(None) = fit returned Err.
 fn run_impl(c: &Case, extra: &[Vec<f64>]) -> Result<Option<(Tree, Vec<f64>, Vec<f64>)>, String> {
     guard(|| {
         let xm = dense(&c.x);
         if c.cls {
-            let params = DecisionTreeClassifierParameters {
+            let literal = DecisionTreeClassifierParameters {
                 criterion: criterion(c.crit),
                 max_depth: c.md,
                 min_samples_leaf: c.msl,
                 min_samples_split: c.mss,
+            };
+            // every other case (a function of the case, so replays agree) goes through the public builder
+            // methods instead of the struct literal: `with_*` must store exactly what it is given
+            let params = match (via_builder(c), c.md) {
+                (true, Some(d)) => DecisionTreeClassifierParameters::default()
+                    .with_criterion(criterion(c.crit)).with_max_depth(d).with_min_samples_leaf(c.msl).with_min_samples_split(c.mss),
+                (true, None) if DecisionTreeClassifierParameters::default().max_depth.is_none() => DecisionTreeClassifierParameters::default()
+                    .with_criterion(criterion(c.crit)).with_min_samples_leaf(c.msl).with_min_samples_split(c.mss),
+                _ => literal,
             };
             match DecisionTreeClassifier::fit(&xm, &c.y, params) {
                 Err(_) => None,
@@ -105,7 +119,12 @@ fn run_impl(c: &Case, extra: &[Vec<f64>]) -> Result<Option<(Tree, Vec<f64>, Vec<
                 }
             }
         } else {
-            let params = DecisionTreeRegressorParameters { max_depth: c.md, min_samples_leaf: c.msl, min_samples_split: c.mss };
+            let literal = DecisionTreeRegressorParameters { max_depth: c.md, min_samples_leaf: c.msl, min_samples_split: c.mss };
+            let params = match (via_builder(c), c.md) {
+                (true, Some(d)) => DecisionTreeRegressorParameters::default().with_max_depth(d).with_min_samples_leaf(c.msl).with_min_samples_split(c.mss),
+                (true, None) if DecisionTreeRegressorParameters::default().max_depth.is_none() => DecisionTreeRegressorParameters::default().with_min_samples_leaf(c.msl).with_min_samples_split(c.mss),
+                _ => literal,
+            };
             match DecisionTreeRegressor::fit(&xm, &c.y, params) {
                 Err(_) => None,
                 Ok(t) => {
